@@ -4,7 +4,7 @@
    CPython's PathFinder/FileFinder precedence, pkgutil.iter_modules/walk_packages and site.addsitedir.
    Executable definitions only. *)
 From Coq Require Import List ZArith String Ascii Bool Arith.
-From Verif Require Import Lib.Sexp.
+From Verif Require Import Lib.Sexp Gen.C14_tables.
 Import ListNotations.
 Open Scope string_scope.
 Open Scope list_scope.
@@ -132,7 +132,8 @@ Definition is_init_name (fn : string) : bool := before_first_dot fn =? "__init__
 
 (* ------------------------------------------------------------------------------------------------------------- *)
 (* finder.py *)
-Definition accepted_exts : list string := [".py"; ".pyc"; ".pyo"; ".pyd"; ".pyi"; ".so"].
+(* regenerated from ModuleFinder.accepted_py_module_extensions on every run (Gen/C14_tables.v) *)
+Definition accepted_exts : list string := gen_accepted_exts.
 Definition accepted (name : string) : bool := mem_str (os_ext name) accepted_exts.
 
 (* _filter_py_modules: os.walk(top-down): a directory's non-directory entries first (listing order), then each
